@@ -8,6 +8,7 @@ package cloudevents
 // names are part of the function's identity (the model of json.Encoder.Encode derives them from the struct tags).
 
 //@ type FormatterFilter immutable Source, Schema, Format, Predicate, SignEventTypes
+//@ type FormatterFilter guarded_by l: Signer
 
 // CloudEvents 1.0 names the content-type attribute "datacontenttype"; the struct tag spells it "datacontentype".
 // The pinned tests pin the misspelt name, so this is recorded as a known finding (see /verif/known_findings.json).
@@ -47,7 +48,8 @@ package cloudevents
 //@   ensures C18/invalid-configuration-rejected: (err == nil) <==> validConfig(f)
 
 //@ func (*FormatterFilter).Rotate(s) (err)
-//@   requires f != nil
+//@   requires f != nil && held(f.l) == 0
+//@   ensures C19/the-signer-is-replaced-in-one-exclusive-critical-section: held(f.l) == 0 && acquisitions(f.l) == old(acquisitions(f.l)) + ((s != nil) ? 1 : 0)
 //@   ensures C18/nil-signer-rejected: (s == nil) ==> err != nil && f.Signer == old(f.Signer)
 //@   ensures C18/signer-replaced: (s != nil) ==> err == nil && f.Signer == s
 
@@ -57,8 +59,11 @@ package cloudevents
 
 //@ func (*FormatterFilter).sign(ctx, e, enc, buf) (err)
 //@   requires f != nil && (enc != nil && buf != nil ==> encWriter(enc) == ref(buf))
+//@   requires held(f.l) == 0
 //@   requires C12/callback-free: cbfree()
-//@   assigns ev, ctxdone, Event.Serialized, Event.SerializedHmac, bytes
+//@   assigns ev, ctxdone, Event.Serialized, Event.SerializedHmac, bytes, held, lockacq
+//@   ensures C19/the-signer-is-read-once-under-the-lock-and-called-outside-it: held(f.l) == 0 && (e != nil && enc != nil && buf != nil ==> acquisitions(f.l) == old(acquisitions(f.l)) + 1)
+//@   ensures locks-restored: unchanged("held")
 //@   ensures C18/missing-argument-is-an-error-without-effect: (e == nil || enc == nil || buf == nil) ==> err != nil && ev_n == old(ev_n)
 //@   ensures C18/unlisted-types-and-missing-signer-never-sign: e != nil && enc != nil && buf != nil && !(f.Signer != nil && listedForSigning(f, e.Type)) ==> err == nil && ev_n == old(ev_n) && calls("fn:Signer") == old(calls("fn:Signer")) && e.Serialized == old(e.Serialized) && e.SerializedHmac == old(e.SerializedHmac) && content(bufBytes(buf)) == old(content(bufBytes(buf)))
 //@   ensures C18/listed-types-are-signed-over-the-unsigned-document: e != nil && enc != nil && buf != nil && f.Signer != nil && listedForSigning(f, e.Type) ==> calls("fn:Signer") == old(calls("fn:Signer")) + 1 && ev_kind(old(ev_n)) == "callfn:Signer" && ev_a(old(ev_n), 3) == arr(bufBytes(buf))
@@ -82,12 +87,14 @@ package cloudevents
 
 //@ func (*FormatterFilter).Process(ctx, e) (out, err)
 //@   requires formatVarsIntact() && (e != nil ==> held(e.l) == 0)
+//@   requires f != nil && held(f.l) == 0
 //@   requires C12/callback-free: cbfree()
+//@   ensures C19/unlocked: held(f.l) == 0
 //@   ensures C18/invalid-configuration-rejected: !validConfig(f) ==> err != nil && out == nil && ev_n == old(ev_n)
 //@   ensures C18/missing-event-rejected: validConfig(f) && e == nil ==> err != nil && out == nil
 //@   ensures C18/empty-id-rejected: validConfig(f) && e != nil && typeis(e.Payload, ID) && purecall("ID.ID", e.Payload) == "" ==> err != nil && out == nil && calls("fn:Signer") == old(calls("fn:Signer"))
 //@   ensures C18/only-this-event-is-forwarded: out == nil || (out == e && err == nil)
-//@   ensures C18/forwarded-event-carries-the-cloudevent: out != nil ==> (storeKey(f) in e.Formatted) && content(e.Formatted[storeKey(f)]) == uf("append", 0, docOfFields(docIndent(f), uf("proj.id", storedDoc(f, e)), uf("url.String", f.Source), "1.0", e.Type, docData(e.Payload), docContentType(f), docSchema(f), e.CreatedAt, uf("proj.ser", storedDoc(f, e)), uf("proj.hm", storedDoc(f, e))))
+//@   ensures C18+C19/forwarded-event-carries-the-cloudevent: out != nil ==> (storeKey(f) in e.Formatted) && content(e.Formatted[storeKey(f)]) == uf("append", 0, docOfFields(docIndent(f), uf("proj.id", storedDoc(f, e)), uf("url.String", f.Source), "1.0", e.Type, docData(e.Payload), docContentType(f), docSchema(f), e.CreatedAt, uf("proj.ser", storedDoc(f, e)), uf("proj.hm", storedDoc(f, e))))
 //@   ensures C18/id-is-the-payloads-or-generated-and-never-empty: out != nil ==> uf("proj.id", storedDoc(f, e)) != "" && (typeis(e.Payload, ID) ==> uf("proj.id", storedDoc(f, e)) == purecall("ID.ID", e.Payload))
 //@   ensures C18/listed-types-are-signed-over-the-unsigned-document: out != nil && f.Signer != nil && listedForSigning(f, e.Type) ==> calls("fn:Signer") == old(calls("fn:Signer")) + 1 && uf("proj.ser", storedDoc(f, e)) == uf("base64", uf("append", 0, docOfFields(docIndent(f), uf("proj.id", storedDoc(f, e)), uf("url.String", f.Source), "1.0", e.Type, docData(e.Payload), docContentType(f), docSchema(f), e.CreatedAt, "", "")))
 //@   ensures C18/unlisted-types-are-never-signed: out != nil && !(f.Signer != nil && listedForSigning(f, e.Type)) ==> calls("fn:Signer") == old(calls("fn:Signer")) && uf("proj.ser", storedDoc(f, e)) == "" && uf("proj.hm", storedDoc(f, e)) == ""
